@@ -135,6 +135,7 @@ PreAt(s, e) ==
            IF EnSprout(s) THEN R(s, {}) ELSE R(Force(s, e), {"Desync"})
       [] e.e = "end" ->     \* run() returned: the global condition must have been seen true at a metaepoch boundary
            R(s, IF s.pc = "done" \/ (s.pc = "loop" /\ s.gscSeen /\ s.pendingInit = <<>>) THEN {} ELSE {"C05_DoneImpliesGsc"})
+      [] e.e = "gsc" /\ e.by = "other" -> R(s, {})      \* out-of-protocol consult: nothing is assumed about the position
       [] e.e = "start" -> R(InitAll(s, e.b), {})
       [] e.e \in {"report", "dump"} ->      \* probes at the loop head (before the loop-head consult)
            LET s0 == IF s.pc = "sprout" THEN [s EXCEPT !.pc = "loop"] ELSE s
@@ -153,6 +154,7 @@ Compare(s, sn) ==
         common == ids \cap Ids(s)
         counted == sn.refused = 0
     IN  (IF ids \ Ids(s) # {} THEN {IF s.gscSeen THEN "C05_NoSproutAfterGsc" ELSE "C07_UnexpectedDeme"} ELSE {})
+   \cup (IF ids \cap s.ban # {} THEN {"C05_NoSproutAfterGsc"} ELSE {})
    \cup (IF Ids(s) \ ids # {} THEN {"C07_DemeVanished"} ELSE {})
    \cup (IF Len(sn.demes) # Cardinality(ids) THEN {"C07_UniqueIds"} ELSE {})
    \cup (IF sn.mc # s.mc THEN {"C05_CounterEqualsPerformed"} ELSE {})
@@ -246,7 +248,19 @@ Post(s, e) ==
                      ELSE R(s, verr \cup latch)
                 [] e.by = "step" -> R(IF EnPostGsc(s) THEN DoPostGsc(s, e.v) ELSE s, verr \cup latch)
                 [] e.by = "run"  -> R(IF EnLoopCheck(s) THEN DoLoopCheck(s, e.v) ELSE s, verr \cup latch)
-                [] OTHER -> R(s, {})
+                \* a consult from anywhere else (e.g. inside a sprouting round): the model does not move, but the
+                \* condition has now been "observed true": demes of the current round that are not constructed yet
+                \* (still pending and absent from the observed tree) must not appear any more
+                [] OTHER -> R(IF e.v
+                              THEN LET late == {c \in Ids(s) : /\ \E i \in DOMAIN s.pendingInit : s.pendingInit[i] = c
+                                                              /\ c \notin SnapIds(e.snap)}
+                                   IN [s EXCEPT !.gscSeen = TRUE, !.ban = @ \cup late,
+                                                !.D = [d \in Ids(s) \ late |-> s.D[d]],
+                                                !.L = [i \in DOMAIN s.L |-> SelectSeq(s.L[i], LAMBDA x : x \notin late)],
+                                                !.wind = [d \in DOMAIN s.wind \ late |-> s.wind[d]],
+                                                !.pendingInit = SelectSeq(@, LAMBDA x : x \notin late),
+                                                !.roundNew = @ \ late]
+                              ELSE s, verr \cup latch)
       [] e.e = "lsc" ->
            IF EnLsc(s, e.d)
            THEN LET verr == IF LscModelled(s, e.d) /\ LscVal(s, e.d) # e.v THEN {"Info_LscVerdict"} ELSE {}
@@ -276,7 +290,7 @@ SortedRanks(g) == SortSeq(Ranks(g), LAMBDA a, b : a < b)
 Leq(a, b)    == Len(a) = Len(b) /\ \A j \in DOMAIN a : a[j] <= b[j]
 
 NoMem == [hd |-> "", n |-> 0, last |-> <<>>, minr |-> -1, bestset |-> {}, iters |-> <<>>, lam |-> 0,
-          seen |-> FALSE, obs |-> <<>>]
+          seen |-> FALSE, obs |-> <<>>, since |-> {}]
 MemOf(m, d) == IF d \in DOMAIN m.d THEN m.d[d] ELSE NoMem
 
 ElitistSEA(s, lv) == s.cfg.levels[lv + 1].eng = "SEA" /\ s.cfg.levels[lv + 1].elite >= 1
@@ -305,10 +319,15 @@ GenClauses(s, r, md, refusedNow) ==
          THEN {"C12_PopSize"} ELSE {})
    \cup (IF eng = "CMA" /\ \E k \in DOMAIN new : Len(new[k]) # (IF md.lam = 0 THEN Len(new[1]) ELSE md.lam)
          THEN {"C12_PopSize"} ELSE {})
-   \cup (IF BredEngine(s, lv) /\ off >= 0 /\ \E k \in bredIdx : \E j \in DOMAIN new[k] :
+   \* "newly evaluated after that preceding generation was completed": evaluated in the iteration that produced the
+   \* generation (iterations are delimited by the deme's own consults); when more generations were committed than
+   \* iterations were observed (off < 0: the deme did not consult after every generation, or it recorded generations
+   \* without running), the weaker but still necessary condition "evaluated by this deme since the last boundary"
+   \* (md.since) is required instead
+   \cup (IF BredEngine(s, lv) /\ \E k \in bredIdx : \E j \in DOMAIN new[k] :
               /\ new[k][j][4] # 2
               /\ Pair(new[k][j]) \notin Pairs(prevOf(k))
-              /\ new[k][j][1] \notin iterOf(k)
+              /\ new[k][j][1] \notin (IF off >= 0 THEN iterOf(k) ELSE md.since)
          THEN {"C11_BredFromPredecessor"} ELSE {})
    \cup (IF (ElitistSEA(s, lv) \/ OneToOne(s, lv)) /\ \E k \in bredIdx : MinRank(new[k]) > MinRank(prevOf(k))
          THEN {"C12_BestNotWorse"} ELSE {})
@@ -328,7 +347,7 @@ UpdMem(md, r) ==
                   !.minr = allmin,
                   !.bestset = (IF allmin = md.minr THEN @ ELSE {}) \cup UNION {bs(k) : k \in DOMAIN new},
                   !.lam = IF @ = 0 /\ new # <<>> THEN Len(new[1]) ELSE @,
-                  !.seen = TRUE]
+                  !.seen = TRUE, !.since = {}]
 
 NonEmptyGens(new) == \A k \in DOMAIN new : new[k] # <<>>
 
@@ -382,7 +401,11 @@ MemCalls(m, s, e) ==
               THEN [x \in DOMAIN m.d \cup {e.d} |-> IF x = e.d
                        THEN [NoMem EXCEPT !.iters = <<BatchGids(e.b, e.d)>>] ELSE m.d[x]]
               ELSE upd
-    IN [m EXCEPT !.mincall = mn, !.d = d2]
+        bd == BatchDemes(e.b)
+        d3 == [x \in DOMAIN d2 \cup bd |->
+                 LET old == IF x \in DOMAIN d2 THEN d2[x] ELSE NoMem
+                 IN IF x \in bd THEN [old EXCEPT !.since = @ \cup BatchGids(e.b, x)] ELSE old]
+    IN [m EXCEPT !.mincall = mn, !.d = d3]
 
 \* iteration sets are per metaepoch: reset when the loop-head consult starts a new step
 MemNewStep(m) == [m EXCEPT !.d = [d \in DOMAIN m.d |-> [m.d[d] EXCEPT !.iters = <<>>]]]
@@ -438,7 +461,7 @@ DumpClauses(e) ==
 Init == /\ tid \in 1..NTraces
         /\ l = 1
         /\ st = InitState(CfgOf(AllTraces[tid].events[1].cfg))
-        /\ mem = [d |-> [x \in {} |-> NoMem], tbest |-> -1, mincall |-> -1]
+        /\ mem = [d |-> [x \in {} |-> NoMem], tbest |-> -1, mincall |-> -1, offered |-> {}]
         /\ viol = {}
 
 Tag(S, i) == {<<c, i>> : c \in S}
@@ -455,20 +478,32 @@ Step ==
        ELSE
        LET sn   == e.snap
            p    == Pre(st, e)
-           cmp  == IF e.e = "abort" THEN {} ELSE Compare(p.st, sn)   \* an aborted run stops mid-step
-           s2   == IF Differs(p.st, sn) THEN Resync(p.st, sn) ELSE p.st
+           \* a consult from outside the protocol may see the tree in the middle of a round: only the ban is checked
+           other == e.e = "gsc" /\ e.by = "other"
+           cmp  == IF other THEN (IF SnapIds(sn) \cap p.st.ban # {} THEN {"C05_NoSproutAfterGsc"} ELSE {})
+                   ELSE Compare(p.st, sn)
+           s2   == IF ~other /\ Differs(p.st, sn) THEN Resync(p.st, sn) ELSE p.st
            m1   == MemCalls(mem, s2, e)
            full == sn.full = 1
            fc   == IF full THEN FullClauses(s2, m1, sn) ELSE {}
            m2   == IF full THEN MemAfterFull(m1, sn) ELSE m1
            tb   == IF full THEN TreeBestClauses(s2, m2, sn, TRUE) ELSE {}
            m3   == IF full /\ sn.best # <<>> THEN [m2 EXCEPT !.tbest = sn.best[2]] ELSE m2
-           m4   == IF e.e = "gsc" /\ e.by = "run" /\ ~e.v THEN MemNewStep(m3) ELSE m3
+           m3b  == IF e.e = "sprout"      \* who was offered at least one candidate by the generator in this round
+                   THEN [m3 EXCEPT !.offered = {e.gen[i][1] : i \in {j \in DOMAIN e.gen : Len(e.gen[j][2]) >= 1}}]
+                   ELSE m3
+           m4   == IF e.e = "gsc" /\ e.by = "run" /\ ~e.v THEN MemNewStep(m3b) ELSE m3b
            pc   == IF e.e = "gsc" /\ e.by = "step" THEN PostClauses(s2) ELSE {}
            sc   == IF e.e = "sprout" THEN SproutClauses(s2, m2, e) ELSE {}
            q    == Post(s2, e)
            idle == IF e.e = "gsc" /\ e.by = "step" /\ s2.cfg.idlecheck = 1 /\ sn.refused = 0 /\ IdleMetaepoch(q.st)
-                   THEN {IF AllActiveWereAsleep(q.st) THEN "C18_IdleAllAsleep"
+                   THEN {IF AllActiveWereAsleep(q.st)
+                         THEN \* known finding KF-C18-stall: every active deme slept because the last round *could* have
+                              \* sprouted from it (the generator proposed candidates) and the filters took none; a
+                              \* sleeping deme the shipped generators proposed nothing for can never be woken
+                              IF s2.cfg.generator \in {"best", "nbc"} /\ s2.rounds > 0 /\
+                                 \E d \in DOMAIN q.st.D0 : AsleepAtStart(q.st, d) /\ d \notin mem.offered
+                              THEN "C18_IdleNotOffered" ELSE "C18_IdleAllAsleep"
                          ELSE IF AllAwakeRanWithoutChange(q.st) THEN "C18_IdleConverged"
                          ELSE "C18_NoIdleMetaepoch"} ELSE {}
            endc == IF e.e = "end" /\ ~C05_CounterEqualsPerformed([s2 EXCEPT !.pc = "done"]) THEN {"C05_CounterEqualsPerformed"} ELSE {}
